@@ -4,7 +4,7 @@ import pool_shared as ps
 import handles as H
 
 PROP = 'C01'
-REPLAYERS = {'pool.TaskHandler.body': 'replayers/taskhandler_body.py',
+REPLAYERS = {'pool.TaskHandler.body': 'replayers/taskhandler_body.py', 'pool.ApplyResult._ack': 'replayers/ack_owner.py',
              'pool.TimeoutHandler.on_hard_timeout': 'replayers/hard_timeout.py',
              'pool.ResultHandler._make_methods.<locals>.on_ack': 'replayers/result_handler.py',
              'pool.ResultHandler._make_methods.<locals>.on_ready': 'replayers/result_handler.py'}
@@ -75,6 +75,7 @@ def ext_taskqueue_get(ex, args, kw):
     _map_async / imap: (TASK, (job, i, func, args, kwds)))"""
     if ex.path.choose(2) == 0:
         return SNone()
+    gset(ex, 'sending', mk_int(-1))                # nothing of this sequence has been sent yet
     seq = list_of(TASK).fresh('taskseq')
     ex.path._assume_wf(seq)
     ex.path.assume(ex.path.read_field(seq, 'len').e >= 0)
@@ -210,6 +211,20 @@ def build(w):
     )
 
     # ---- the task feeder: "task could not be sent" resolves *that* job ------
+    def sp_job_of(ex, t):
+        """the job id a TASK message names (-1 for None)"""
+        if isinstance(t, SNone):
+            return mk_int(-1)
+        if isinstance(t, SOpt):
+            return SV(IntS, z3.If(t.isnone, -1, t.val.items[1].items[0].e))
+        return t.items[1].items[0]
+    w.spec_funcs['job_of'] = sp_job_of
+
+    def sp_pos_of(ex, t):
+        if isinstance(t, SNone):
+            return SNone()
+        return (t.val if isinstance(t, SOpt) else t).items[1].items[1]
+    w.spec_funcs['pos_of'] = sp_pos_of
     set_for_sender = H.set_contract(PROP)
     set_for_sender.params = dict(set_for_sender.params, i=ValS)
     set_for_sender.requires = dict(set_for_sender.requires,
@@ -221,16 +236,22 @@ def build(w):
         externals={'<opaque>.get': ext_taskqueue_get, '<callable>': ext_callable_in_body,
                    'pool.TaskHandler.tell_others': lambda ex, a, k: SNone()},
         requires={'nothing_being_sent': 'g.sending == -1', 'cache_allocated': 'allocated(self.cache)'},
+        # the global cache invariant (ASSUMPTIONS), instantiated at the job a failing sequence is reported on -- as in put()
+        lemmas=[{'before': 'if job in cache:', 'assume': cache_wf('self.cache', 'job')}],
         modifies=['Job._success', 'Job._value', 'Event.flag', 'self.cache.has', 'self.cache.size', 'g.ncalls', 'g.assigned', 'g.sending', 'g.cb_raised'],
         loops={
             0: {'inv': {'cache': 'cache == self.cache'},
                 'modifies': ['Job._success', 'Job._value', 'Event.flag', 'self.cache.has', 'self.cache.size',
                              'g.ncalls', 'g.assigned', 'g.sending', 'g.cb_raised'],
                 'locals': {'task': opt(TASK), 'i': IntS, 'taskseq': list_of(TASK), 'set_length': opt(ValS)}},
-            1: {'inv': {'cache': 'cache == self.cache'},
+            # (the task sequence of an imap job is a generator over the caller's iterable: producing the next task may raise)
+            1: {'inv': {'cache': 'cache == self.cache',
+                        'the_task_in_hand_is_the_one_being_sent': 'g.sending == job_of(task)'},
                 'modifies': ['Job._success', 'Job._value', 'Event.flag', 'self.cache.has', 'self.cache.size',
                              'g.ncalls', 'g.assigned', 'g.sending', 'g.cb_raised'],
-                'locals': {'task': opt(TASK), 'i': IntS}},
+                'locals': {'task': opt(TASK), 'i': IntS},
+                # (only imap sequences are lazy; their tasks carry integer positions)
+                'iter_raises': {'exc': 'AnyException', 'when': 'task is None or pos_of(task) is not None'}},
         },
         ensures={'t': 'True'},
         # a user callback that raised (propagated error) ends the thread by design
